@@ -29,6 +29,7 @@ from vf.hyp import drive, run_machine, st
 from vf.runner import Collector
 
 ID = "C18"
+EARLY_ATTRIBUTION = True  # region predicates are cheap scans of the stored case
 LEVEL = "exploration"
 RULE = (
     "(a) Traces: Hypothesis draws a program = sequence of builder steps over ~60 ONNX ops (+com.microsoft Gelu) with Python "
